@@ -120,6 +120,7 @@ def main(argv=None):
     reach = collections.Counter()
     notes = collections.Counter()
     distinct = set()
+    sched_digests = set()
     samples = []
     seen_sigs = collections.Counter()
     nviol = 0
@@ -204,6 +205,7 @@ def main(argv=None):
             C["max_pool"] = max(C["max_pool"], sim.max_pool)
             for f in sim.fired:
                 fired[f["kind"]] += 1
+            sched_digests.add(sim.schedule_digest())
             nontrivial = reach_nontrivial(case, s, sim)
             if nontrivial:
                 distinct.add((util.obj_digest(case), sim.schedule_digest(), repr(sim.fired)))
@@ -289,7 +291,7 @@ def main(argv=None):
                                       "policy": pol, "policy_arg": arg}, vwant))
     emit({"t": "summary", "worker": a.worker, "counts": dict(C), "by_op": dict(by_op),
           "by_policy": dict(by_policy), "fired": dict(fired), "discards": dict(discards),
-          "reach": dict(reach), "notes": dict(notes), "distinct_nontrivial": len(distinct),
+          "reach": dict(reach), "notes": dict(notes), "distinct_nontrivial": len(distinct), "distinct_schedules": len(sched_digests),
           "samples": samples, "last_index": last_i, "wall_s": time.monotonic() - t0,
           "dup_signatures": dict(seen_sigs), "known_hits": dict(known_hits),
           "trace_digest": trace.hexdigest()[:16], "trace_digest_nokeys": trace_nk.hexdigest()[:16]})
